@@ -60,6 +60,10 @@ claim("C20", "panic-site audit over the resolved MIR call graph from every untru
       "From the flat/CBOR/hex decoders and all Decode impls, the UPLC text parser (generated code included), the Aiken parser and formatter, the blueprint's serde Deserialize/Visitor impls, Parameter::validate / apply / lookup, the configuration loader and the transaction decoding of tx simulation, every unwrap/expect, panic!-family macro, index/slice, arithmetic assert and panicking API reachable in the call graph (about 145 sites) is enumerated and must be in a reviewed per-function table; three demonstrated input-driven panics are listed as known findings; UPLC grammar actions are fallible.",
       "loops, stack depth on deeply nested input and panics inside pallas / minicbor / serde_json / chumsky / peg runtime are not decided; two reviewed tx-decoding sites are input-driven but undemonstrated (DESIGN C20)", "DESIGN.md §3 C20", "shape+flow")
 
+claim("C18", "ordered-protocol and dataflow-shape rules over the application pipeline (syntax tree), per-arm version consistency, panic-site audit (MIR)",
+      "Validator::apply validates the head parameter against exactly the datum it then applies, first, and consumes exactly the head with every other field kept; apply_data builds [program datum] and keeps the version; SerializableProgram::map keeps the Plutus version; apply_parameter overwrites program and parameters together under an equality of the same key on both titles; tuple arity checks are equalities before the zip; apply_params_to_script applies in list order; hash derived not stored; rejection by Err not panic (three demonstrated panics listed as known findings).",
+      "behavioural equality of the applied validator on the remaining arguments follows from apply_data's shape given C03 and is not decided; file round trips rest on C08", "DESIGN.md §3 C18", "shape+flow")
+
 
 def main():
     props = [json.loads(l) for l in open(os.path.join(HERE, "properties.jsonl"))]
